@@ -1,4 +1,5 @@
 import MpVerif.C07.Model
+import MpVerif.C07.Arms
 /-! Line driver for C07.  Builds a flat model from definition lines and prints the model's
 `checkSolution` outcome for `check` lines.  No logic of its own: parsing and printing only. -/
 open MpVerif.C07
@@ -96,6 +97,7 @@ def pFunc : P Func := do
   | "nofc" => do let k ← pRat; pure (.numberofConst k (← pList pNat))
   | "nofv" => do let v0 ← pNat; pure (.numberofVar v0 (← pList pNat))
   | "count" => do pure (.count (← pList pNat))
+  | "pow" => do let a ← pNat; let k ← pNat; pure (.pow a k)
   | "pl" => do
       let pts ← pList (do let x ← pRat; let y ← pRat; pure (x, y))
       let a ← pNat
@@ -181,6 +183,16 @@ def step (s : St) (toks : List String) : Option (St × String) :=
           pure (s, if m.ordered || s.opts.mode &&& 992 == 0 then "nonfinite" else "unordered")
         else
           pure (s, outcomeStr s.opts (checkSolutionCode m s.opts xs ov code)) : P _).run' r
+  | "arms" :: r =>
+    (do let code ← pInt
+        let xt ← tok; if xt != "X" then failure
+        let xs ← pList pRat
+        let ot ← tok; if ot != "O" then failure
+        let ov ← pList pRat; pEnd
+        let m := s.model
+        if xs.length != m.nvars then failure
+        if !(inFragment m s.opts xs) then pure (s, "outside")
+        else pure (s, ";;".intercalate (runArms m s.opts xs ov code).eraseDups) : P _).run' r
   | "recompute" :: r =>
     (do let xs ← pList pRat; pEnd
         let m := s.model
